@@ -72,7 +72,7 @@ func init() {
 			cs = append(cs, Case{Kind: "badenc"})
 			n := 150
 			if !quick(tier) {
-				n = 5000
+				n = 20000
 			}
 			for i := 0; i < n; i++ {
 				cs = append(cs, Case{Kind: "mix", Seed: h.Mix(seed, 0xC09A, uint64(i))})
